@@ -227,6 +227,38 @@ def list_ellipsis_position_cases(ctx):
     return cases
 
 
+def contains_scan_cases(ctx):
+    """directed: `[..., a, b, ...]`, `[a, b, ...]` and `[..., a, b]` whose body elements keep something beside a pinned value
+    (bounds, lengths, another kind), against values whose matching run starts at EVERY offset 0..3 — and against values
+    where an earlier offset matches only a prefix of the body"""
+    from d42 import schema
+    bodies = [
+        (lambda: [schema.int.min(100)], [200], [7, -3, 50]),
+        (lambda: [schema.int.min(100), schema.str.len(2)], [200, "ab"], [7, "abc", 50]),
+        (lambda: [schema.str.len(2), schema.int.max(0)], ["ab", -5], ["abc", 9, "a"]),
+        (lambda: [schema.float.min(1.0).max(2.0)], [1.5], [0.5, 9.5, -1.0]),
+        (lambda: [schema.int.min(100), schema.int.min(100)], [150, 160], [120, 7, 8]),       # 120 matches a PREFIX of the body
+        (lambda: [schema.list(schema.int).len(2), schema.none], [[1, 2], None], [[1], [1, 2, 3], 0]),
+        (lambda: [schema.any(schema.int.min(100), schema.none)], [None], [5, "x", 6]),
+    ]
+    cases = []
+    for mk, run, filler in bodies:
+        for off in range(4):
+            for trail in range(2):
+                v = filler[:off] + run + filler[:trail]
+                for form in ("both", "head", "tail"):
+                    if (form == "head" and off) or (form == "tail" and trail):
+                        continue
+                    try:
+                        body = mk()
+                        s = schema.list(([...] if form != "head" else []) + body + ([...] if form != "tail" else []))
+                    except Exception:  # noqa: BLE001
+                        continue
+                    cases.append(SubCase(s, list(v), list(v), "contains-scan"))
+                    cases.append(SubCase(schema.dict({"xs": s}), {"xs": list(v)}, {"xs": list(v)}, "contains-scan"))
+    return cases
+
+
 def special_key_subst_cases(ctx):
     """directed: unions whose dict alternatives have keys special to str.format / %-formatting, substituted with values that
     match some / no alternative"""
